@@ -1,3 +1,131 @@
+//! C12 — the write-ahead log of `sst` returns each batch once, in order; a torn tail loses only the
+//! tail; concurrent appends are durable when they return.
+
+mod bytes;
+mod conc;
+mod model;
+mod seq;
+mod shim;
+
+use vcore::Check;
+
 fn main() {
-    vcore::main_with(vec![], &[]);
+    let check = Check::new(
+        "C12",
+        "exploration",
+        "Four proptest parts; all payload bytes are derived from tags, cases store shapes only. sequential-roundtrip: 1-3 (thorough 1-5) rounds of [Fill: whole-frame filler batches computed from the builder's current offset so that exactly `slack` bytes (0..45 mostly, up to 70 000) remain before the next 1 MiB boundary; then 1-3 probes: Fit = a batch whose frame is (room left in the block)+delta bytes for delta in -3..3 / -25..25 / -300..300, Batch = 1-5 explicitly shaped entries (keys 0..16 384 bytes, values none/0..32 768 bytes, timestamps 0, 1, 127, 128, 2^32, 2^64-1, random; values of zeros / 0xff / images of a valid frame header), Tiny = up to 59 one-entry batches, Big = payload MAX_BATCH_LEN / MAX_BATCH_SIZE / 1 MiB +-2, Empty = an empty batch (must be refused, log unchanged), Overfull = a batch filled to within 0..39 bytes of 1 MiB plus one entry that must be refused]; written with LogBuilder<&mut Vec<u8>> or (25 %) LogBuilder<File>. Oracle: LogIterator yields exactly the appended entries in order and then ends cleanly; seal()'s setsum and log_to_setsum equal the sum of the entries; truncate_final_partial_frame on the intact file says None; the builder's offsets equal the ends of the frames found by the harness's own frame parser (whole / first+second frames, CRCs, zero padding of at most HEADER_MAX_SIZE bytes up to the boundary). Non-trivial = at least one batch is split across a block boundary. truncation: the same generator (1-2 rounds, small probes) and, for the built image, every cut length inside every split batch (header, first part, padding, second header, second part), inside every padding and the header that follows it, +-3 around every block boundary, inside the last two or three frames, plus sampled positions (dense regions longer than 700 bytes are thinned to their edges + 24 interior points; at most 900 / 2500 cuts per case). Oracle for a cut at c: the reader yields exactly the entries of all batches whose last byte lies before c (no complete batch lost, no partial batch, no foreign entry), then ends or returns Err, and never panics; for a file that ends after the first half of a split frame (the crash between the two writes of append_split) truncate_final_partial_frame must name the end of the last complete batch and the log truncated there must read cleanly. Non-trivial = at least one cut strictly inside a split batch. concurrent-append: 2-8 OS threads x 1-10 (thorough 1-20) uniquely tagged batches (8 bytes .. 512 KiB) through one ConcurrentLogBuilder<File> on tmpfs, with write / fdatasync / fsync interposed in the harness binary: generated pauses before calls and generated delays (0-1500 us) inside every write and fdatasync; 40 % of the cases are forced pile-ups in which thread 0's first write (or first fdatasync) is held inside the shim until every other thread is parked in an untimed futex wait inside append (two identical /proc snapshots). Oracle: every append returns Ok; the sealed file parses into frames; reading it yields every batch exactly once, whole and contiguous, per-thread order and real-time order (returned-before-called) preserved; every frame group is the concatenation of whole batches and carries at most 1 MiB; when an append returned, the end offset of the frame holding its batch was <= the file length covered by an fdatasync that had completed (the shim records the length before each sync and publishes it after success); seal()'s setsum equals the sum; in an established write pile-up whose waiters total <= 1 MiB the waiters are written as one merged frame, and in an established fsync pile-up exactly one further fdatasync serves all waiters. Non-trivial = at least two batches merged into one write. A saved threaded case is replayed 20 times. hand-made-frames: up to 7 pieces (frames with any discriminant 0-4, right or wrong CRC, short or over-claimed payload; stray zeros; out-of-range header lengths): the reader never panics, yields only entries present in the input, and reads well-formed input completely. Non-trivial = damaged input from which at least one entry was read. Distinct by structural hash of the case.",
+    )
+    .assume("batches are built through WriteBatch (put / del), so the smallest batch is one tombstone with an empty key (8 bytes) and the largest is 1 MiB (WriteBatch refuses to grow beyond BLOCK_SIZE; log::MAX_BATCH_SIZE = 1 MiB - 2*HEADER_MAX_SIZE and sst::MAX_BATCH_LEN are smaller and are exercised as boundary sizes); logs stay far below the 1 GiB roll-over size")
+    .assume("a cut is acceptable when the reader returns the complete batches before it and then either ends or reports an error; which of the two is not prescribed")
+    .assume("durability is judged on the intercepted libc calls: bytes are durable when an fdatasync/fsync on the log's descriptor that started after their write returned has completed with success (tmpfs itself persists nothing)")
+    .assume("the anchors' description of the concurrent builder (batches merged by the head thread, one write, then one fdatasync covering every waiter) is read as part of the property only for forced pile-ups, where every waiter is provably enqueued before the head finishes")
+    .assume("a put/del refused by a WriteBatch must leave both the batch's bytes and its setsum unchanged (finding C12-A, repaired in /repo by fee951b; regressions/C12/C12-A-refused-put-pollutes-setsum.json); the batch keeps being used after the refusal")
+    .pbt(seq::RoundTrip)
+    .pbt(seq::Truncation)
+    .pbt(conc::Concurrent)
+    .pbt(bytes::Arbitrary);
+    vcore::main_with(vec![check], &[("selftest", model_selftest), ("layout", layout)]);
+}
+
+/// `c12 selftest`: the size arithmetic of the harness against the real encoders.
+fn model_selftest(_: &[String]) -> i32 {
+    use model::*;
+    use sst::Builder;
+    let mut bad = 0;
+    for &ts in &[0u64, 1, 127, 128, 1 << 32, u64::MAX] {
+        for klen in [0usize, 1, 5, 127, 128, 300, 16383, 16384] {
+            for vlen in [None, Some(0usize), Some(1), Some(127), Some(128), Some(16383), Some(16384), Some(32768)] {
+                let e = make_entry(7, &EntryShape { klen: klen as u16, ts, vlen: vlen.map(|v| v as u32), fill: 0 });
+                let wb = make_batch(&[e]).unwrap();
+                if wb.approximate_size() != entry_size(klen, ts, vlen) {
+                    println!("entry_size({klen},{ts},{vlen:?}) = {} real {}", entry_size(klen, ts, vlen), wb.approximate_size());
+                    bad += 1;
+                }
+            }
+        }
+    }
+    let mut noplan = 0;
+    for target in (8usize..70_000).chain([983_040, 1_048_535, 1_048_536, 1_048_537, 1_048_575, 1_048_576]) {
+        for ts in [1u64, u64::MAX] {
+            match plan_exact(target, &[], ts, 0) {
+                Some(sh) => {
+                    if shapes_size(&sh) != target {
+                        println!("plan_exact({target}) gives {}", shapes_size(&sh));
+                        bad += 1;
+                    }
+                }
+                None => {
+                    if noplan < 20 {
+                        println!("no plan for {target} ts {ts}");
+                    }
+                    noplan += 1;
+                }
+            }
+        }
+    }
+    // header lengths against real frames
+    for p in [8usize, 127, 128, 16383, 16384, 100_000] {
+        let sh = plan_exact(p, &[], 1, 0).unwrap();
+        let es: Vec<Entry> = sh.iter().enumerate().map(|(i, s)| make_entry(i as u64, s)).collect();
+        let wb = make_batch(&es).unwrap();
+        let mut buf = Vec::new();
+        let mut log = sst::log::LogBuilder::from_write(sst::log::LogOptions::default(), &mut buf).unwrap();
+        log.append(&wb).unwrap();
+        log.flush().unwrap();
+        drop(log);
+        if buf.len() != p + header_len(p) || wb.approximate_size() != p {
+            println!("frame for payload {p}: file {} bytes, model {}", buf.len(), p + header_len(p));
+            bad += 1;
+        }
+    }
+    println!("selftest: {bad} mismatches, {noplan} targets without a plan");
+    (bad > 0) as i32
+}
+
+/// `c12 layout <steps.json>`: print the frame layout a list of steps produces (debugging aid).
+fn layout(args: &[String]) -> i32 {
+    let steps: Vec<seq::Step> = serde_json::from_slice(&std::fs::read(&args[0]).expect("read")).expect("parse");
+    let mut o = vcore::Outcome::pass();
+    let mut buf: Vec<u8> = Vec::new();
+    let log = sst::log::LogBuilder::from_write(sst::log::LogOptions::default(), &mut buf).unwrap();
+    let Some((built, _)) = seq::build(log, &steps, 1, &mut o) else {
+        println!("failed: {:?}", o.failure);
+        return 1;
+    };
+    println!("notes {:?}", built.notes);
+    match model::parse_frames(&buf) {
+        Ok(fr) => {
+            for f in fr {
+                println!("pad {:2} frame {:8}..{:8} hdr {:2} size {:8} disc {}", f.pad_before, f.start, f.end, f.hdr_len, f.size, f.disc);
+            }
+        }
+        Err(e) => println!("parse error: {e}"),
+    }
+    for (i, b) in built.batches.iter().enumerate() {
+        println!("batch {i}: {} entries, end {}", b.entries.len(), b.end);
+    }
+    // what a reader sees when the file ends inside a split batch
+    if let Ok(groups) = model::parse_frames(&buf).and_then(|f| model::group_frames(&f)) {
+        for g in groups.iter() {
+            let Some((f, s)) = &g.split else { continue };
+            for cut in [f.start + 3, f.end, f.end + 1, s.start, s.start + 3, s.end - 1] {
+                let mut exp = built.batches.iter().flat_map(|b| b.entries.iter());
+                let r = seq::read_compare(&buf[..cut as usize], &mut exp);
+                let path = std::env::temp_dir().join(format!("c12-layout-{}", std::process::id()));
+                std::fs::write(&path, &buf[..cut as usize]).unwrap();
+                let t = sst::log::truncate_final_partial_frame(sst::log::LogOptions::default(), &path);
+                let _ = std::fs::remove_file(&path);
+                println!(
+                    "cut {cut} (first {}..{}, second {}..{}): read {:?}; truncate_final_partial_frame {:?}",
+                    f.start,
+                    f.end,
+                    s.start,
+                    s.end,
+                    r.map(|(n, e)| (n, match e { seq::End::Clean => "clean end".to_string(), seq::End::Error(e) => e.chars().filter(|c| !c.is_whitespace()).take(110).collect() })),
+                    t.map_err(|e| format!("{e:?}").chars().filter(|c| !c.is_whitespace()).take(90).collect::<String>())
+                );
+            }
+        }
+    }
+    0
 }
